@@ -43,8 +43,8 @@ def count_C13 : Nat := 6
 def digest_C14 : Nat := 0x8748eb7682700484af04fe6d215a1d1a
 def count_C14 : Nat := 11
 
-def digest_C15 : Nat := 0xc42216763baec8edb09b5437468d9a86
-def count_C15 : Nat := 10
+def digest_C15 : Nat := 0x0cf540cf077cc50055a1c47e5a151f0e
+def count_C15 : Nat := 12
 
 def digest_C16 : Nat := 0x0403ae1177014f6c4006acd878cf8b49
 def count_C16 : Nat := 11
